@@ -19,30 +19,53 @@ use std::collections::{BTreeMap, BTreeSet};
 pub struct C06;
 
 pub const N_LEAVES: u32 = 420;
-pub const ROOT: u32 = 1000;
+pub const ROOT: u32 = 1;
+
+/// the 420 leaf ids (HP:1 and HP:118 are the root and one inner node, so two leaves are renumbered)
+pub fn leaf_ids() -> Vec<u32> {
+    (1..=N_LEAVES).map(|i| match i {
+        1 => 1000,
+        118 => 501,
+        x => x,
+    })
+    .collect()
+}
+
+/// the 20 inner nodes: HP:0000118 (phenotype branch) and 19 modifier roots
+pub fn inner_ids() -> Vec<u32> {
+    (0..20u32).map(|m| if m == 0 { 118 } else { 501 + m }).collect()
+}
+
+pub fn all_term_ids() -> Vec<u32> {
+    leaf_ids().into_iter().chain(inner_ids()).chain([ROOT]).collect()
+}
 const KS: [usize; 30] = [
     1, 2, 3, 4, 5, 7, 10, 15, 21, 30, 42, 60, 84, 100, 105, 120, 150, 168, 169, 170, 171, 172, 200, 250, 300, 350, 400, 418, 419, 420,
 ];
 
-/// The fixed two-level ontology: root 1000, 20 inner nodes 501..=520, leaves 1..=420;
+/// The fixed two-level ontology in the standard flavour: root HP:0000001, 20 inner nodes (HP:0000118 and
+/// 19 modifier roots 502..=520), 420 leaves (21 below each inner node);
 /// 30 records per kind (ids 1..=30 in every kind, different links per kind),
 /// record j annotated to a pseudo-random KS[j]-subset of the leaves.
 pub fn fixed_facts() -> Facts {
     let mut f = Facts::default();
     f.terms.push(TermFact { id: ROOT, name: "root".into(), obsolete: false, replacement: None });
-    for m in 0..20u32 {
-        f.terms.push(TermFact { id: 501 + m, name: format!("mid{m}"), obsolete: m == 4, replacement: None });
-        f.edges.push((501 + m, ROOT));
+    let inner = inner_ids();
+    for (m, id) in inner.iter().enumerate() {
+        f.terms.push(TermFact { id: *id, name: format!("mid{m}"), obsolete: m == 4, replacement: None });
+        f.edges.push((*id, ROOT));
     }
-    for i in 1..=N_LEAVES {
+    let leaves_all = leaf_ids();
+    for (n, i) in leaves_all.iter().enumerate() {
+        let i = *i;
         // every ninth leaf is flagged obsolete (some also name a replacement): the flags must not matter
-        f.terms.push(TermFact { id: i, name: format!("leaf{i}"), obsolete: i % 9 == 4, replacement: if i % 27 == 4 { Some(i + 1) } else { None } });
-        f.edges.push((i, 501 + (i - 1) / 21));
+        f.terms.push(TermFact { id: i, name: format!("leaf{i}"), obsolete: n % 9 == 4, replacement: if n % 27 == 4 { Some(leaves_all[n + 1]) } else { None } });
+        f.edges.push((i, inner[n / 21]));
     }
     for k in 0..3 {
         for (j, kk) in KS.iter().enumerate() {
             // deterministic shuffle of the leaves
-            let mut leaves: Vec<u32> = (1..=N_LEAVES).collect();
+            let mut leaves: Vec<u32> = leaf_ids();
             let mut x: u64 = 0x2545F4914F6CDD1D ^ ((k as u64) << 32) ^ (j as u64 * 7919);
             for i in (1..leaves.len()).rev() {
                 x = x.wrapping_mul(6364136223846793005).wrapping_add(1442695040888963407);
@@ -274,7 +297,7 @@ fn check_enrich(background: &[u32], sample: &[u32], stats: &mut Stats) -> CheckR
             }
             ensure!(got.len() == expected, format!("{}-enrichment/extra-records", KIND_NAMES[kind]), "{} records reported, {expected} are linked to the sample", got.len());
         }
-        if bg.iter().any(|t| *t > 500) {
+        if bg.iter().any(|t| *t == ROOT || inner_ids().contains(t)) {
             stats.label("background-with-inner-nodes");
         }
         if sm.is_empty() {
@@ -355,7 +378,7 @@ fn strategy() -> BoxedStrategy<Case> {
     ];
     let leaves_only = proptest::bool::weighted(0.5);
     let enrich = (size.clone(), leaves_only, vec(any::<u16>(), total), vec(any::<u16>(), total), any::<u16>()).prop_map(move |(n_bg, leaves_only, k1, k2, np)| {
-        let all: Vec<u32> = if leaves_only { (1..=N_LEAVES).collect() } else { (1..=N_LEAVES).chain(501..=520).chain([ROOT]).collect() };
+        let all: Vec<u32> = if leaves_only { leaf_ids() } else { all_term_ids() };
         let n_bg = n_bg.min(all.len());
         let background = subset(&all, &k1, n_bg);
         // sample sizes 1..=N; one case in 64 the empty sample (no record may be reported)
@@ -364,7 +387,7 @@ fn strategy() -> BoxedStrategy<Case> {
         Case::Enrich { background, sample }
     });
     let sweep = (size, vec(any::<u16>(), total), any::<u16>(), 0u8..3, 1u32..=30).prop_map(move |(n_bg, k1, np, kind, rec)| {
-        let all: Vec<u32> = (1..=N_LEAVES).chain(501..=520).chain([ROOT]).collect();
+        let all: Vec<u32> = all_term_ids();
         let background = subset(&all, &k1, n_bg.min(all.len()));
         let n = 1 + pick(np, background.len());
         Case::Sweep { background, n, kind, rec }
